@@ -459,7 +459,7 @@ func TestC07(t *testing.T) {
 			}
 			var spec tls.ClientHelloSpec
 			err, pn := guard("ClientHelloSpec.UnmarshalJSON", d, func() error { return json.Unmarshal(d, &spec) })
-			if !pn && err == nil && i%3 == 0 && specDescribesValidHello(&spec) {
+			if !pn && err == nil && i%3 == 0 && specDescribesValidHello(&spec) && jsonSpecInLimits(&spec) {
 				applySpec("ClientHelloSpec.UnmarshalJSON", d, &spec)
 			}
 			if i%5 == 0 {
